@@ -1,5 +1,7 @@
 """C08 - HTTP response bodies."""
+from e2e_common import e2e_part
 PROP = {
+    "parts": [e2e_part("chkE08", 40, 800)],
     "glue": "G08", "chk": "chk08", "explain": "explain08",
     "n": {"quick": 600, "thorough": 20000},
     "rule": "cases = response/error VALUES handed to the real WriteAnnounceResponse / WriteScrapeResponse / WriteError with an httptest.ResponseRecorder: "
